@@ -6,7 +6,7 @@ import warnings
 from . import formats_common as fc
 from .common import Oracle, Suite, errname, merge
 
-GEN_UNITS = ["B64", "Handlers", "PyUnicode", "PyCase", "StaticFmt", "MiscTables"]
+GEN_UNITS = ["B64", "Handlers", "PyUnicode", "PyCase", "StaticFmt", "MiscTables", "FormatParsers", "LibpassAll"]
 LEAN_TARGETS = ["PasslibVerif.Props.C07", "PasslibVerif.Props.C07Static", "PasslibVerif.Props.C07DesBcrypt", "PasslibVerif.Props.C07Pbkdf", "PasslibVerif.Props.C07Misc"]
 ASSUMPTIONS = [
     "formats without a Lean model yet are explored by the real-code round-trip oracle only (listed under only_correspondence_checked)",
